@@ -32,36 +32,49 @@ TAW, DISCARD = 0xFFFF, 0xFFFE
 class Sess:
     """One negotiated session: the 8 IP families, asn4 on/off, ADD-PATH receive on/off for every family."""
 
-    def __init__(self, asn4, addpath):
+    def __init__(self, asn4, addpath, extnh=()):
         from exabgp.configuration.setup import create_minimal_configuration
         from exabgp.configuration.check import _negotiated
+        from exabgp.protocol.family import AFI, SAFI
+        from exabgp.util.enumeration import TriState
 
-        self.asn4, self.addpath = asn4, addpath
-        self.key = f'asn4={int(asn4)},addpath={int(addpath)}'
+        self.asn4, self.addpath, self.extnh = asn4, addpath, [tuple(f) for f in extnh]
+        self.key = f'asn4={int(asn4)},addpath={int(addpath)}' + (',extnh=' + '+'.join(f'{a}/{b}' for a, b in self.extnh) if self.extnh else '')
         self.conf = create_minimal_configuration(families=FAMTXT, add_path=addpath)
         self.neighbor = next(iter(self.conf.neighbors.values()))
         if addpath:
             self.neighbor.capability.add_path = 3
+        if self.extnh:
+            # RFC 8950 extended next hop: IPv6 next hops for these IPv4 families
+            self.neighbor.capability.nexthop = TriState.TRUE
+            for a, b in self.extnh:
+                self.neighbor.add_nexthop(AFI.from_int(a), SAFI.from_int(b), AFI.ipv6)
         self.neg, _ = _negotiated(self.neighbor)
         self.neg.asn4 = asn4
         self.neg.aigp = True  # AIGP configured: the value decoder is reached (otherwise the attribute is discarded by design)
-        from exabgp.protocol.family import AFI, SAFI
 
         for a, s in IPFAMS:
             if bool(self.neg.required(AFI.from_int(a), SAFI.from_int(s))) != addpath:
                 raise RuntimeError('session does not negotiate ADD-PATH as requested')
-        if self.neg.nexthop:
-            raise RuntimeError('extended next hop negotiated: outside the modelled sessions')
-        if [(int(a), int(s)) for a, s in self.neg.families] != IPFAMS and sorted((int(a), int(s)) for a, s in self.neg.families) != sorted(IPFAMS):
+        got = sorted((int(a), int(b)) for a, b, c in self.neg.nexthop if int(c) == 2)
+        if got != sorted(self.extnh) or len(got) != len(self.neg.nexthop):
+            raise RuntimeError(f'extended next hop negotiated as {self.neg.nexthop}, wanted {self.extnh}')
+        if sorted((int(a), int(s)) for a, s in self.neg.families) != sorted(IPFAMS):
             raise RuntimeError(f'unexpected negotiated families {self.neg.families}')
 
     def coq(self):
         fams = '[' + ';'.join(f'({a},{s})' for a, s in IPFAMS) + ']'
-        return f'(mkS {"true" if self.asn4 else "false"} {fams} {fams if self.addpath else "[]"})'
+        ext = '[' + ';'.join(f'({a},{s})' for a, s in self.extnh) + ']'
+        return f'(mkS {"true" if self.asn4 else "false"} {fams} {fams if self.addpath else "[]"} {ext})'
+
+
+EXTNH_ALL = [(1, 1), (1, 2), (1, 4), (1, 128)]
 
 
 def make_sessions():
-    return [Sess(a, p) for a in (True, False) for p in (False, True)]
+    # 4 plain sessions (asn4 x ADD-PATH), then RFC 8950 sessions: IPv6 next hops negotiated for every IPv4 family the
+    # tree supports it for, and for ipv4 unicast alone
+    return [Sess(a, p) for a in (True, False) for p in (False, True)] + [Sess(True, False, EXTNH_ALL), Sess(True, True, [(1, 1)])]
 
 
 # ------------------------------------------------------------------------------- RFC encoders (independent of exabgp)
@@ -206,6 +219,8 @@ def gen_update(rng, sess, want=None, plain_as4=False):
         nhl = 4 if fam[0] == 1 else rng.choice([16, 16, 32])
         if fam == (2, 128):
             nhl = 16
+        if fam in sess.extnh and rng.random() < 0.7:
+            nhl = 16 if fam[1] == 128 else rng.choice([16, 32])  # RFC 8950: an IPv6 next hop for an IPv4 family
         d['mp_reach'] = {'fam': fam, 'nh': [rng.getrandbits(8) for _ in range(nhl)],
                          'nlris': [gen_nlri(rng, fam, ap) for _ in range(rng.choice([1, 1, 2, 3]))]}
     if shape in ('mpwd', 'mix'):
@@ -598,7 +613,7 @@ HEADER = """From Coq Require Import ZArith Bool List.
 From ExaV Require Import gen.Gen_AttrTable model.Model_Nlri model.Model_Update spec.Spec_Wire.
 Import ListNotations. Open Scope Z_scope.
 Definition ref_update (s : sess) (b : list Z) :=
-  ref_update_gen unpack_nlri (fun _ _ => false) (mkRS (s_asn4 s) (s_fams s) (s_addpath s)) b.
+  ref_update_gen unpack_nlri (fun _ _ => false) (mkRS (s_asn4 s) (s_fams s) (s_addpath s) (s_extnh s)) b.
 Definition observe_ref := observe_ref_gen obs_nlri.
 """
 
@@ -923,7 +938,8 @@ def check(tier, seed):
         'modelled, not verified: everything in Model_Update.v; the prefix NLRI decoders are Model_Nlri (C15)',
     ]
     run.assumptions = [
-        'sessions negotiate the eight IP families, no extended next hop (RFC 8950), ADD-PATH receive for all or none of them',
+        'sessions negotiate the eight IP families, ADD-PATH receive for all or none of them; two of the six sessions negotiate the '
+        'RFC 8950 extended next hop (for all four IPv4 families / for ipv4 unicast only)',
         'well-formed = what a conforming peer may send: unused flag bits zero, PARTIAL only on optional attributes, no '
         'duplicate attribute, AS4_PATH only on a 2-byte session, unrecognised attributes carry the Optional bit',
         'labels of withdrawn labelled routes are not compared (RFC 8277: the label field of a withdrawal is ignored)',
@@ -941,6 +957,7 @@ def check(tier, seed):
     # AS4 merge stream: a 2-byte session, AS_PATH + AS4_PATH of every small shape
     merge = []
     s2 = sessions[2]  # asn4 off, addpath off
+    assert not s2.asn4 and not s2.addpath
     shapes2 = [[[2, [1, 23456, 23456]]], [[2, [1, 2]], [1, [3, 4]]], [[2, [23456]], [1, [23456, 5]], [2, [6]]], [[3, [64512]], [2, [1, 23456]]], []]
     shapes4 = [[[2, [70000, 70001]]], [[2, [70000]]], [[1, [70000, 5]], [2, [6]]], [], [[2, [1, 2, 3, 4, 5, 6, 7]]], [[2, [3]]]]
     for p2 in shapes2:
@@ -1095,7 +1112,7 @@ def check(tier, seed):
         'distinct_nontrivial': len({bytes(c['body']) for c in cases if len(c['body']) > 4}),
         'rule': f'{n} well-formed UPDATE descriptions (random mix of withdrawn / NLRI / MP_REACH / MP_UNREACH over the 8 IP families, '
                 f'attributes of the core set + unknown optional ones in any order, extended-length flag on 20%, PARTIAL on 25% of optional '
-                f'ones, 1-3 NLRIs per section, duplicates inside LARGE_COMMUNITY) round-robin over 4 sessions (asn4 x ADD-PATH), '
+                f'ones, 1-3 NLRIs per section, duplicates inside LARGE_COMMUNITY) round-robin over 6 sessions (asn4 x ADD-PATH, two with RFC 8950 extended next hop), '
                 f'{len(shapes2) * len(shapes4)} AS_PATH x AS4_PATH shape pairs on a 2-byte session, {len(eors)} End-of-RIB shapes; '
                 f'non-trivial = distinct body longer than 4 bytes',
         'outcome_distribution': dict(dist),
@@ -1105,6 +1122,8 @@ def check(tier, seed):
             ('wd' if c['desc']['withdrawn'] else '') + ('+nlri' if c['desc']['nlri'] else '') + ('+reach' if c['desc']['mp_reach'] else '')
             + ('+unreach' if c['desc']['mp_unreach'] else '') for c in cases if c['desc'])),
         'adj_rib_in_cases': n_rib,
+        'ipv6_next_hop_for_ipv4_family_cases': sum(1 for c in cases if c['desc'] and c['desc']['mp_reach']
+                                                    and c['desc']['mp_reach']['fam'][0] == 1 and len(c['desc']['mp_reach']['nh']) >= 16),
         'read_message_drops_discard': READ_MESSAGE_DROPS_DISCARD(),
         'exhaustive': False,
     })
